@@ -1,6 +1,6 @@
 """C12 — SequOOL opens cells depth by depth within its harmonic budget."""
 from .. import configs, world
-from ..algorun import replay_algo, run_algo_task
+from ..algorun import bystander_tasks, replay_algo, run_algo_task
 from ..world import QueryAfterRound
 from ..refs.sequool import SequOOLOracle, h_max_of
 
@@ -16,7 +16,7 @@ RULE = ("SequOOL x {Binary 1-D, Kary(3) 1-D, DimensionBinary 2-D} x budgets n: e
 ASSUMPTIONS = ["the run is continued past n rounds where needed to reach the end of the schedule (the statement quantifies over further pulls)",
                "ties: any unopened cell of maximal reward"]
 VACUITY = [("openings_judged", "no opening judged"), ("exhausted_rounds", "the end of the schedule was never reached")]
-PARTS = [("Binary", None, "u1"), ("Kary", 3, "u1"), ("DimensionBinary", None, "u2")]
+PARTS = [("Binary", None, "neg1"), ("Kary", 3, "nd1"), ("DimensionBinary", None, "mix2")]
 
 
 def schedule_len(n, K):
@@ -43,6 +43,9 @@ def tasks(tier, seed):
                 continue
             cfg = configs.cfg("SequOOL", part, K, configs.BOXES[box], n=n)
             L = schedule_len(n, ar)
+            if n in (10, 24, 100) or tier == "thorough":
+                ts += bystander_tasks("%s/n%d" % (part, n), cfg, configs.R3, T_long=L + 3, T_short=min(L + 3, 24), bases=("twopeak", "zero"),
+                                      k=1 if tier == "quick" else 2)
             for base in (("twopeak", "zero") if tier == "quick" else ("twopeak", "zero", "alt", "negpeak")):
                 ts.append({"kind": "algo", "label": "dev/%s/n%d/%s" % (part, n, base), "cfg": cfg, "mode": "dev", "T": L + 3,
                            "R": list(configs.R3), "base": base, "k": 1 if tier == "quick" else 2,
@@ -127,7 +130,7 @@ def _sched_task(task):
             st.exhaustive = False
             st.caps.append({"task": task["label"], "cap": "wall-clock budget", "first_n_not_run": n})
             break
-        cfg = configs.cfg("SequOOL", "Binary", None, configs.BOXES["u1"], n=n)
+        cfg = configs.cfg("SequOOL", "Binary", None, configs.BOXES["u1" if n % 2 else "nd1"], n=n)
         L = schedule_len(n, 2)
         for base in ("twopeak",):
             t = {"cfg": cfg, "mode": "dev", "T": L + 3, "R": [1.0], "base": base, "k": 0, "label": task["label"]}
